@@ -146,15 +146,18 @@ sim::heap::Config heapCfg(const Host &h) {
   return c;
 }
 
-// Runs f as the code under test: simulated heap and stack, 5 s watchdog.
+// Runs f as the code under test: simulated heap and stack.  The 90 s alarm only stops a genuinely hung
+// tool; wall-clock time never decides a verdict (a watchdog hit is 'skipped', see hung()).
 sim::Trapped underHost(const Host &h, const std::function<int()> &f) {
   applyEnv(h);
   sim::Trapped t;
   sim::heap::begin(heapCfg(h));
-  sim::callOnDirtyStack(h.stackMode, h.stackBytes, h.stackSeed, h.shift, [&]() { t = sim::runTrapped(f, 5); });
+  sim::callOnDirtyStack(h.stackMode, h.stackBytes, h.stackSeed, h.shift, [&]() { t = sim::runTrapped(f, 90); });
   sim::heap::end();
   return t;
 }
+
+bool hung(const sim::Trapped &t) { return t.kind == sim::Trapped::CRASHED && t.signal == SIGALRM; }
 
 //---------------------------------------------------------------------------------------------
 // C12
@@ -600,6 +603,7 @@ public:
       o.count("fault.host_stack_" + std::to_string(hosts[k].stackMode));
       if (asTool) o.count("probe.tool_level_run");
       o.stateKeys.push_back("c12 img=" + imgClass + " arena=" + std::to_string(hosts[k].arenaMode) + " stack=" + std::to_string(hosts[k].stackMode) + (asTool ? " tool" : " lib") + (exited ? " exit" : " cut"));
+      if (hung(r.t)) { o.note = "skipped:watchdog"; o.count("probe.watchdog_hit"); return; }
       std::string why;
       if (r.t.kind == sim::Trapped::CRASHED) why = "hexsim " + r.t.str();
       else if (r.t.kind == sim::Trapped::THREW) why = "hexsim threw '" + r.t.what + "' inside the ISA's defined domain";
@@ -636,6 +640,7 @@ public:
           sim::g_log.evs("cut_run", hosts[h].str() + " -> " + r.t.str() + " out=" + std::to_string(r.out.size()), k);
           o.count("fault.max_cycles_cut_fired");
           cutRuns.push_back(r);
+          if (hung(r.t)) { o.note = "skipped:watchdog"; o.count("probe.watchdog_hit"); return; }
           if (r.t.kind == sim::Trapped::CRASHED) { o.violate("host_state_dependent", "hexsim " + r.t.str() + " with --max-cycles " + std::to_string(k), "host_state_dependent:cut_crash"); break; }
           if (h > 0) {
             // Tool and library runs are compared on status modulo 256.
@@ -651,13 +656,14 @@ public:
     if (o.violated) return;
 
     // (c) -t only adds trace text.
-    if (v.trace) {
+    if (v.trace && steps <= 6000) {      // every traced instruction is a line of output
       for (size_t h = 0; h < hosts.size() && !o.violated; h++) {
         bool asTool = tool[h] && exited;
         bool viaXrun = asTool && tool[h] == 2 && !v.xsource.empty();     // the same entry point as the plain run
         RunRes r = asTool ? runTool(v, hosts[h], true, 0, viaXrun, v.xsource) : runLib(v, hosts[h], true, 0, stopAfter);
         sim::g_log.evs("trace_run", hosts[h].str() + " -> " + r.t.str() + " out=" + std::to_string(r.out.size()));
         o.count("fault.trace_on");
+        if (hung(r.t)) { o.note = "skipped:watchdog"; o.count("probe.watchdog_hit"); return; }
         const RunRes &base = full[h];
         std::string d = cmpRuns(r, base, false, exited);
         if (d.empty() && !asTool && r.syscalls != base.syscalls) d = "system-call sequence differs (" + std::to_string(r.syscalls.size()) + " vs " + std::to_string(base.syscalls.size()) + ")";
@@ -793,6 +799,7 @@ public:
       }
       const StepRes ref = it->second;
       sim::g_log.evs("reference", tool + "/" + action + "/" + via + " " + ref.str(), sim::hashStr(src));   // logged whether cached or not
+      if (hung(ref.t)) { o.count("probe.watchdog_hit"); o.note = "skipped:watchdog"; return; }
       if (ref.t.kind == sim::Trapped::CRASHED) {
         // The tool crashes on this source even in the pristine state: not a source "the tools accept".
         o.count("probe.source_crashes_tool_in_pristine_state");
@@ -800,6 +807,7 @@ public:
         return;                      // the process is damaged; the worker restarts
       }
       StepRes r = runStep(tool, action, via, src, h);
+      if (hung(r.t)) { o.count("probe.watchdog_hit"); o.note = "skipped:watchdog"; return; }
       sim::g_log.evs("step", std::to_string(pos) + " " + tool + "/" + action + "/" + via + " " + h.str() + " -> " + r.str(), sim::hashStr(src));
       o.simInstr++;
       o.nontrivial = true;
